@@ -2,7 +2,7 @@
 From Coq Require Import String.
 From Coq Require Import List NArith ZArith Bool Arith Lia.
 From Orso Require Import Gen.C18_Tables Model.C18.
-From Orso Require Export Proofs.C18_Select Proofs.C18_Width Proofs.C18_Lines Proofs.C18_Sub.
+From Orso Require Export Proofs.C18_Select Proofs.C18_Width Proofs.C18_Lines Proofs.C18_Sub Proofs.C18_Columns.
 Import ListNotations.
 Local Open Scope list_scope.
 
